@@ -569,6 +569,9 @@ func (l *Line) IPArray(name string, value []net.IP) *Line {
 }
 
 func (l *Line) appendByte(value byte) {
+	if l.index >= len(l.buffer) { // the line is full (a truncated array fills it to its end): drop what follows
+		return
+	}
 	l.buffer[l.index] = value
 	l.index++
 }
